@@ -62,6 +62,10 @@ pub struct Agg {
     /// (run index, violations of the property under check)
     pub failures: BTreeMap<u64, Vec<Violation>>,
     pub log_fold: u64,
+    /// runs in which the harness itself panicked (generator, environment or oracle, outside the
+    /// simulated execution): (lowest index, message). Nothing such a batch reports can be believed.
+    pub harness_panics: u64,
+    pub first_harness_panic: Option<(u64, String)>,
 }
 
 impl Agg {
@@ -136,6 +140,12 @@ impl Agg {
         self.max_steps_one_run = self.max_steps_one_run.max(o.max_steps_one_run);
         self.inconclusive += o.inconclusive;
         self.log_fold = self.log_fold.wrapping_add(o.log_fold);
+        self.harness_panics += o.harness_panics;
+        match (&self.first_harness_panic, o.first_harness_panic) {
+            (Some((a, _)), Some((b, m))) if b < *a => self.first_harness_panic = Some((b, m)),
+            (None, Some(x)) => self.first_harness_panic = Some(x),
+            _ => {}
+        }
         self.failures.extend(o.failures);
         for (k, v) in o.samples {
             self.samples.insert(k, v);
@@ -255,7 +265,25 @@ where
                 break;
             }
             inflight.set(slot, i);
-            let r = f(i);
+            let r = match std::panic::catch_unwind(std::panic::AssertUnwindSafe(|| f(i))) {
+                Ok(r) => r,
+                Err(p) => {
+                    // a panic that escaped the simulated execution is a defect of the harness
+                    let msg = p
+                        .downcast_ref::<String>()
+                        .cloned()
+                        .or_else(|| p.downcast_ref::<&str>().map(|s| s.to_string()))
+                        .unwrap_or_else(|| "non-string panic".into());
+                    local.harness_panics += 1;
+                    if local.first_harness_panic.as_ref().map_or(true, |(j, _)| i < *j) {
+                        local.first_harness_panic = Some((i, msg));
+                    }
+                    inflight.set(slot, NO_INDEX);
+                    done.fetch_add(1, Ordering::Relaxed);
+                    retire = true;
+                    break;
+                }
+            };
             inflight.set(slot, NO_INDEX);
             let d = done.fetch_add(1, Ordering::Relaxed) + 1;
             if d % 256 == 0 {
